@@ -26,9 +26,17 @@ from gen_c14 import G
 EXC = ["Exception", "ValueError", "OSError", "SyntaxError", "AttributeError", "RecursionError"]
 EXC_EXTRA = ["KeyError", "AssertionError"]     # used by the message-shape part only
 SITES = ["db_load", "parse", "scan", "import_exec", "complete"]
+# fault points INSIDE the analysis / the completion lookup (round 2)
+INNER_SITES = ["sym", "scope", "db_lookup", "modlist"]
 # model operation kind of each site
 SITE_KIND = {"db_load": "dbLoad", "db_parse": "dbLoad", "parse": "parse", "scan": "scan", "import_exec": "importExec",
-             "complete": "completion"}
+             "complete": "completion",
+             # symbol_needs_import / ScopeStack operations / get_known_import run inside auto_import;
+             # "scan_*" = while find_missing_imports is on the stack
+             "sym": "scan", "scan_sym": "scan", "scan_scope": "scan", "db_lookup": "scan",
+             "scope": "completion",      # ScopeStack.merged_to_two in complete_symbol, before the local try
+             # pkgutil.iter_modules inside ModuleHandle.list(), i.e. inside complete_symbol
+             "modlist": "completion"}
 
 # the functions of _interactive.py that are the installed hooks, by the name visible on the stack
 HOOK_FUNCS = {
@@ -73,6 +81,7 @@ class Injected:
         self.ncalls = {}
         self.imported = []     # import statements pyflyby executed successfully
         self.db_depth = 0
+        self.scan_depth = 0
 
     def hook_on_stack(self):
         f = sys._getframe(2)
@@ -90,6 +99,8 @@ class Injected:
         inject_site = site
         if site == "parse" and self.db_depth > 0:
             site = "db_parse"           # parsing a database file is part of loading the database
+        if site in ("sym", "scope") and self.scan_depth > 0:
+            site = "scan_" + site
         self.ncalls[site] = self.ncalls.get(site, 0) + 1
         fired = None
         for f in self.faults:
@@ -102,7 +113,7 @@ class Injected:
                 break
         self.log.append([self.cell, site, hook, fired["exc"] if fired else None])
         if fired:
-            cls = getattr(__import__("builtins"), fired["exc"])
+            cls = getattr(__import__("builtins"), fired["exc"])     # incl. KeyboardInterrupt (a BaseException)
             e = make_exception(cls, fired.get("msg", "marker"), "INJECTED#%s#%s" % (inject_site, fired["exc"]))
             e._verif_injected = True
             raise e
@@ -147,7 +158,23 @@ def install_injectors(inj):
     # parse
     _parse._parse_ast_nodes = wrap("parse", _parse._parse_ast_nodes)
     # scope analysis
-    _autoimp.find_missing_imports = wrap("scan", _autoimp.find_missing_imports)
+    inner_scan = wrap("scan", _autoimp.find_missing_imports)
+
+    def find_missing_imports(*a, **k):
+        inj.scan_depth += 1
+        try:
+            return inner_scan(*a, **k)
+        finally:
+            inj.scan_depth -= 1
+    _autoimp.find_missing_imports = find_missing_imports
+    # ... and the operations inside it / inside auto_import_symbol
+    _autoimp.symbol_needs_import = wrap("sym", _autoimp.symbol_needs_import)
+    _autoimp.ScopeStack._with_new_scope = wrap("scope", _autoimp.ScopeStack._with_new_scope)
+    _autoimp.ScopeStack.merged_to_two = wrap("scope", _autoimp.ScopeStack.merged_to_two)
+    _autoimp.get_known_import = wrap("db_lookup", _autoimp.get_known_import)
+    # enumeration of importable modules for a global-name completion (ModuleHandle.list -> pkgutil.iter_modules)
+    import pkgutil
+    pkgutil.iter_modules = wrap("modlist", pkgutil.iter_modules)
     # import execution: `exec(stmt, scratch_namespace)` in _try_import resolves `exec` through the module globals
     import builtins
 
@@ -180,7 +207,7 @@ def _ns_view(ns):
             elif callable(v):
                 out[k] = "callable:" + getattr(v, "__module__", "?") + "." + getattr(v, "__name__", "?")
             else:
-                out[k] = type(v).__name__ + ":" + repr(v)[:40]
+                out[k] = type(v).__name__ + ":" + repr(v)[:(300 if k == "zzq_acc" else 40)]
         except Exception:
             out[k] = "?"
     return out
@@ -223,6 +250,29 @@ def _normalise_out(s):
     return s[-20000:]
 
 
+def global_state():
+    """process-global state a hook might touch (canonical, JSON)"""
+    import builtins
+    import warnings
+    root = G["root"]
+
+    def p(x):
+        return x.replace(root, "@ROOT@") if isinstance(x, str) else repr(x)
+    return dict(
+        sys_path=[p(x) for x in sys.path],
+        cwd=p(os.getcwd()),
+        modules=sorted(k for k in sys.modules if k.startswith("zzq_")),
+        builtins=sorted(k for k in vars(builtins) if not k.startswith("__"))[:400],
+        displayhook=type(sys.displayhook).__name__ + ":" + getattr(sys.displayhook, "__name__", ""),
+        excepthook=getattr(sys.excepthook, "__qualname__", type(sys.excepthook).__name__),
+        nfilters=len(warnings.filters),
+        meta_path=[type(x).__name__ if not isinstance(x, type) else x.__name__ for x in sys.meta_path],
+        path_hooks=len(sys.path_hooks),
+        recursion=sys.getrecursionlimit(),
+        stdout_is_cap=sys.stdout is G.get("cap").fo if G.get("cap") else None,
+    )
+
+
 def run_c13(job):
     ip, app = G["ip"], G["app"]
     import pyflyby
@@ -235,6 +285,9 @@ def run_c13(job):
     logger.set_level(job.get("loglevel", "INFO"))
     cap = gen_c14._capture()
     exec("import zzq_mod_23 as zzq_bound", ip.user_ns)      # a module the user has already imported
+    # an object with attributes / items for cells whose assignment targets are not plain names
+    exec("import types as _t; zzq_acc = _t.SimpleNamespace(total=1, items={'k': 1}, lst=[1, 2, 3], sub=_t.SimpleNamespace(n=0)); del _t",
+         ip.user_ns)
     inj = Injected(job.get("faults", []) if pf else [])
     obs = dict(config=G["config"], pf=pf, cells=[])
     if pf:
@@ -300,6 +353,7 @@ def run_c13(job):
         ns_after = _ns_view(ip.user_ns)
         r["ns_new"] = {k: v for k, v in ns_after.items() if ns_before.get(k) != v}
         r["ns_gone"] = sorted(k for k in ns_before if k not in ns_after)
+        r["gstate"] = global_state()
         if pf:
             r["auto_imported"] = sorted(set(inj.imported[n_imported_before:]))
             r["importer"] = gen_c14.importer_view()
@@ -332,6 +386,7 @@ def gen_cell(rng, k, mods_dir):
         ("bad", 2), ("pinfo", 2), ("multi", 2), ("syntaxerr", 1), ("raise", 1), ("prun", 1), ("run", 2),
         ("run_plain", 1), ("debug", 1), ("complete_global", 3), ("complete_attr", 3), ("complete_attr_bound", 1),
         ("two_known", 1), ("autocall", 1), ("run_odd", 3), ("run_odd_needs", 1),
+        ("target", 8), ("import_local", 3),
     ]
     kind = rng.choices([a for a, _ in kinds], weights=[b for _, b in kinds])[0]
     return make_cell(kind, i, k, mods_dir)
@@ -372,6 +427,10 @@ def make_cell(kind, i, k, mods_dir):
         path = f"{mods_dir}/{d}/{fn}_{'plain' if kind == 'run_odd' else 'needs'}.py"
         # %run splits its argument line like a POSIX shell: double quotes keep blanks and quotes in the path
         return run('%run "' + path.replace("\\", "\\\\").replace('"', '\\"') + '"')
+    if kind == "target":
+        return run(TARGET_CELLS[k % len(TARGET_CELLS)].replace("@K@", str(k)).replace("@I@", str(i)))
+    if kind == "import_local":
+        return run("import zzq_localhelper\nzzq_localhelper.WHERE")
     if kind == "debug":
         return run(f"%debug {k}+2")
     if kind == "two_known":
@@ -387,12 +446,39 @@ def make_cell(kind, i, k, mods_dir):
     raise ValueError(kind)
 
 
+# statements whose binding target is not a plain name (or is analysed as a read first); zzq_acc is pre-bound
+TARGET_CELLS = [
+    "zzq_acc.total += 5\nzzq_acc.total",
+    "zzq_acc.items['k'] += zzq_mod_@I@.VALUE\nzzq_acc.items",
+    "zzq_acc.sub.n -= 2\nzzq_acc.sub.n",
+    "zzq_n@K@ = 1\nzzq_n@K@ += zzq_mod_@I@.VALUE\nzzq_n@K@",
+    "zzq_acc.lst[0] *= 7\nzzq_acc.lst",
+    "zzq_acc.note: int\nzzq_acc.ann: int = zzq_mod_@I@.VALUE\nzzq_acc.ann",
+    "zzq_acc.items['a@K@']: int = 4\nsorted(zzq_acc.items)",
+    "del zzq_acc.lst[0]\nzzq_acc.lst",
+    "del zzq_acc.total\nhasattr(zzq_acc, 'total')",
+    "import os\nwith open(os.devnull) as zzq_acc.fh:\n    pass\nzzq_acc.fh.closed",
+    "for zzq_acc.i in range(3):\n    pass\nzzq_acc.i",
+    "for zzq_acc.items['j'] in [zzq_mod_@I@.VALUE]:\n    pass\nzzq_acc.items['j']",
+    "zzq_acc.a, zzq_acc.items['b'] = 1, 2\n(zzq_acc.a, zzq_acc.items['b'])",
+    "[zzq_acc.c, *zzq_acc.rest] = [1, 2, 3]\nzzq_acc.rest",
+    "zzq_acc.total += zzq_unknown_@K@",
+    "try:\n    1 / 0\nexcept ZeroDivisionError as zzq_e@K@:\n    zzq_acc.err = str(zzq_e@K@)\nzzq_acc.err",
+    "zzq_acc.sub.n = zzq_acc.total = zzq_mod_@I@.VALUE\n(zzq_acc.sub.n, zzq_acc.total)",
+    "zzq_acc.lst[1:2] += [zzq_mod_@I@.VALUE]\nzzq_acc.lst",
+]
+
+
 def gen_faults(rng, nmax=3):
     n = rng.choice([0, 1, 1, 1, 2, 2, 3][: 4 + nmax])
     out = []
     for _ in range(n):
-        f = dict(site=rng.choice(SITES), exc=rng.choice(EXC), nth=rng.choice([1, 1, 1, 2, 2, 3]),
+        inner = rng.random() < 0.4
+        f = dict(site=rng.choice(INNER_SITES if inner else SITES), exc=rng.choice(EXC),
+                 nth=rng.choice([1, 1, 2, 2, 3, 4, 5, 7] if inner else [1, 1, 1, 2, 2, 3]),
                  persist=rng.random() < 0.4)
+        if f["site"] == "modlist" and rng.random() < 0.4:
+            f["exc"] = "KeyboardInterrupt"      # Ctrl-C during the slow first <TAB>
         if rng.random() < 0.45:
             f["msg"] = rng.choice(MSGS[1:])
         out.append(f)
